@@ -139,6 +139,10 @@ class Cfg:
                 if t.callee is not None and t.callee.path.endswith("Try::branch") and t.args and t.args[0].place is not None \
                         and not t.args[0].place.proj:
                     seq.append(("branch", t.dest.local, t.args[0].place.local))
+                elif t.callee is not None and t.args and t.args[0].place is not None and not t.args[0].place.proj and re.search(
+                        r"(IoErrorExt::with_context|Result::<T, E>::(map_err|map|inspect|inspect_err)|Option::<T>::(map|inspect))$", t.callee.path):
+                    # variant-preserving combinators: Ok stays Ok, Err stays Err
+                    seq.append(("copy", t.dest.local, t.args[0].place.local))
                 elif t.callee is not None and t.callee.path.endswith("FromResidual::from_residual"):
                     # the value built from a residual is the failure variant of its type
                     sh = (t.callee.self_head or {}).get("path", "")
@@ -468,6 +472,12 @@ def _try_branch(rest, term):
             return None
         return [(0, (("v", ok), ("f", "0")) + r, IDENT)]
     if rest[:1] == (("v", "Break"),):
+        r = rest[1:]
+        if r[:1] == (("f", "0"),):
+            r = r[1:]
+        if r[:2] == (("v", "Err"), ("f", "0")) and not sh.endswith("Poll"):
+            # the error carried by the residual is the operand's error
+            return [(0, r, IDENT)]
         return [(0, (("residual",),), IDENT)]
     if not rest:
         return [(0, (), OKFLOW)]
@@ -539,12 +549,44 @@ def _index(rest, term):
     return [(0, (("[]", term.site[0], term.site[1]),) + rest, IDENT)]
 
 
+def _map_fn_item(wrapper):
+    """`W::map(v, f)` with `f` a function item that has a transformer of its own (`poll(..).map(unwrap_joinhandle_value)`):
+    the payload of the result is f applied to the payload of v."""
+    def tf(rest, term):
+        if len(term.args) < 2 or not term.args[1].is_const or not term.args[1].fn:
+            return None
+        fpath = (term.args[1].fn.get("resolved") or {}).get("path") or term.args[1].fn.get("path")
+        inner = None
+        for rx, f in _TRANS_RE:
+            if rx.match(fpath or ""):
+                inner = f
+                break
+        if inner is None or rest[:2] != wrapper:
+            return None
+        try:
+            r = inner(rest[2:], None)
+        except Exception:
+            return None
+        if not isinstance(r, list):
+            return None
+        out = []
+        for (ai, pth, lvl) in r:
+            if ai != 0:
+                return None
+            out.append((0, wrapper + tuple(pth), lvl))
+        return out
+    return tf
+
+
 def _from_residual(rest, term):
     # the value built from a residual is always the failure variant
     if rest[:1] in ((("v", "Ok"),), (("v", "Some"),), (("v", "Continue"),)):
         return "DEAD"
     if rest[:2] == (("v", "Ready"), ("f", "0")) and rest[2:3] == (("v", "Ok"),):
         return "DEAD"
+    if rest[:2] == (("v", "Err"), ("f", "0")):
+        # the error of the built value is (a conversion of) the residual's error
+        return [(0, rest, OKFLOW)]
     return None
 
 
@@ -586,6 +628,7 @@ TRANSFORMERS = [
     (r"^std::future::get_context$", _id()),
     (r"^async_lib::unwrap_joinhandle_value$", lambda rest, term: [(0, (("await_join",),) + rest, IDENT)]),
     (r"^std::mem::(take|replace)$", _id()),
+    (r"^std::task::Poll::<T>::map$", _map_fn_item((("v", "Ready"), ("f", "0")))),
     (r"^std::boxed::Box::<T>::new$", _id()),
 ]
 # identity steps that create a *new object* (value copies): crossed when asking "where does this
